@@ -273,6 +273,14 @@ def K7():
     return k1 == k2, "%r -> %r" % (k1, k2)
 
 
+def K8():
+    """C11: a concatenation whose text equals an @string key containing '#' is resolved"""
+    bp = _bp()
+    lib = bp.parse_string('@string{a#b = "X"} @article{k, t = a#b}')
+    v = lib.entries[0]["t"]
+    return v == "a#b", "t = %r" % (v,)
+
+
 def F16():
     """C18: converter exception with an empty message swallowed"""
     import witnesses_c18
@@ -293,7 +301,7 @@ def F17():
     return not shared, "output metadata list is the input's / the middleware's own list: %r" % shared
 
 
-ALL = [F1, F2, F3, F4, F5, F6, F7, F8, F9, F10, F11, F12, F13, F14, F15, F16, F17, K1, K2, K3, K4, K5, K6, K7]
+ALL = [F1, F2, F3, F4, F5, F6, F7, F8, F9, F10, F11, F12, F13, F14, F15, F16, F17, K1, K2, K3, K4, K5, K6, K7, K8]
 
 if __name__ == "__main__":
     import bibtexparser
